@@ -429,7 +429,7 @@ LEMMA S_ReaderRcBegin ==
 LEMMA S_SetupDone ==
   ASSUME TypeInv, DataInv, NEW k \in Conns, SetupDone(k)
   PROVE  TypeInv' /\ DataInv'
-<1> DEFINE F(h) == IF h = gen[k] + 1 THEN [link[k][h] EXCEPT !.p = "run", !.r = "run"]
+<1> DEFINE F(h) == IF h = gen[k] + 1 THEN [link[k][h] EXCEPT !.p = IF @ = "new" THEN "run" ELSE @, !.r = IF @ = "new" THEN "run" ELSE @]
                    ELSE IF dial[k] = <<"r", h>> THEN [link[k][h] EXCEPT !.r = "dead"] ELSE link[k][h]
 <1>1. \A h \in Gens(k) : F(h) \in LinkRec /\ RecOK(F(h), produced)
   <2> TAKE h \in Gens(k)
